@@ -303,6 +303,7 @@ func VerifHeaderParse(d []byte, p int, dl int, l int) {}
 //@   ensures [before] forall i int :: {r[i].ID} 0 <= i && i < p ==> r[i] == old(options[i])
 //@   ensures [inserted] r[p] == opt
 //@   ensures [after] forall i int :: {r[i].ID} p < i && i < len(r) ==> r[i] == old(options[i - 1])
+//@   ensures [sorted] sortedOpts(r)
 //@   loop 0:
 //@     modifies options[0 : len(options)]
 //@     invariant 0 <= idxPost && idxPost <= i && i == len(options) - 1 - #iter && len(options) == len(old(options)) + 1
@@ -326,6 +327,7 @@ func VerifHeaderParse(d []byte, p int, dl int, l int) {}
 //@   ensures [set] r[f] == opt
 //@   ensures [after] forall i int :: {r[i].ID} f < i && i < len(r) ==> r[i] == old(options[i - f - 1 + l])
 //@   ensures [array] (len(r) <= cap(options) ==> r[0:0] == options[0:0]) || fresh(r)
+//@   ensures [sorted] sortedOpts(r)
 //@   loop 0:
 //@     modifies options[0 : len(options)]
 //@     invariant updateFrom <= i && i == optsLength - #iter && updateIdx == updateTo + #iter && len(options) == optsLength + 1 && optsLength == len(old(options))
